@@ -177,6 +177,54 @@ fn lost_wakeup_is_a_deadlock() -> Result<(), String> {
     Err("wait() without a notifier returned".into())
 }
 
+fn pool_runs_all_jobs() -> Result<(), String> {
+    // 5 jobs on a pool of 2 threads: all run, never more than 2 at a time
+    let (tx, rx) = mpsc::sync_channel::<u32>(8);
+    let running = Arc::new(sim_std::sync::atomic::AtomicUsize::new(0));
+    let peak = Arc::new(sim_std::sync::atomic::AtomicUsize::new(0));
+    for j in 0..5u32 {
+        let tx = tx.clone();
+        let running = running.clone();
+        let peak = peak.clone();
+        verif_rt::shim::rayon::spawn(move || {
+            use sim_std::sync::atomic::Ordering::SeqCst;
+            let now = running.fetch_add(1, SeqCst) + 1;
+            peak.fetch_max(now, SeqCst);
+            thread::sleep(Duration::from_micros(50));
+            running.fetch_sub(1, SeqCst);
+            tx.send(j).unwrap();
+        });
+    }
+    drop(tx);
+    let mut got: Vec<u32> = rx.iter().collect();
+    got.sort();
+    if got != vec![0, 1, 2, 3, 4] {
+        return Err(format!("pool jobs delivered {got:?}"));
+    }
+    let p = peak.load(sim_std::sync::atomic::Ordering::SeqCst);
+    if p > 2 {
+        return Err(format!("{p} jobs ran at the same time on a pool of 2"));
+    }
+    Ok(())
+}
+
+fn pool_exhaustion_is_a_deadlock() -> Result<(), String> {
+    // three jobs that wait for one another on a pool of 2: whichever two start, the third cannot
+    let barrier = Arc::new(sim_std::sync::Barrier::new(3));
+    let (done_tx, done_rx) = mpsc::sync_channel::<u32>(4);
+    for j in 0..3u32 {
+        let barrier = barrier.clone();
+        let done = done_tx.clone();
+        verif_rt::shim::rayon::spawn(move || {
+            barrier.wait();
+            done.send(j).unwrap();
+        });
+    }
+    drop(done_tx);
+    let a = done_rx.recv().map_err(|e| e.to_string())?;
+    Err(format!("a blocked pool let job results through: {a}"))
+}
+
 pub fn selftest(runs: u64) -> i32 {
     let programs: Vec<(&str, Check, bool)> = vec![
         ("bounded_buffer", bounded_buffer, false),
@@ -186,6 +234,8 @@ pub fn selftest(runs: u64) -> i32 {
         ("park_unpark", park_unpark, false),
         ("mutex_excludes", mutex_excludes, false),
         ("lost_wakeup_is_a_deadlock", lost_wakeup_is_a_deadlock, true),
+        ("pool_runs_all_jobs", pool_runs_all_jobs, false),
+        ("pool_exhaustion_is_a_deadlock", pool_exhaustion_is_a_deadlock, true),
     ];
     let mut bad = 0;
     for (name, prog, expect_wedged) in programs {
@@ -197,6 +247,7 @@ pub fn selftest(runs: u64) -> i32 {
             let mode = SMode::draw(&mut rng);
             let mut spec = ProcSpec::new(mode.to_mode(), derive(seed, 1), derive(seed, 2));
             spec.step_cap = 50_000;
+            spec.pool_size = 2;
             let slot: Arc<StdMutex<Option<Result<(), String>>>> = Arc::new(StdMutex::new(None));
             let s2 = slot.clone();
             let r = run_process(&spec, move || {
